@@ -134,7 +134,7 @@ fn acts(t: &mut Tape<'_>, kind: u8) -> Vec<Act> {
                 10 => Act::RemoveAttr(bytes(t, NAMES)),
                 11 => Act::SetTagName(bytes(t, TAGS)),
                 12 => Act::UserData(t.below(1000)),
-                13 => Act::OnEndTag(end_tag_acts(t)),
+                13 | 15 => Act::OnEndTag(end_tag_acts(t)),
                 14 => Act::ClearEndTagHandlers,
                 _ => Act::Reads,
             },
@@ -197,7 +197,11 @@ pub fn decode(tape: &[u16]) -> Script {
     let defer_errors = t.chance(1, 4);
     let skip_end = t.chance(1, 8);
     let spec = sched_spec(&mut t);
-    let input = input_in(&mut t, &InputOpts { max_frags: 14, ..Default::default() }, encoding_rs::UTF_8);
+    let mut input = input_in(&mut t, &InputOpts { max_frags: 14, ..Default::default() }, encoding_rs::UTF_8);
+    if t.chance(1, 3) {
+        // mixed-case tags with explicit end tags (case-preserving accessors), foreign camel-case names
+        input.extend_from_slice(t.pick(&[&b"<DIV>x</DIV>"[..], b"<Span id=A>y</SPAN>", b"<svg><foreignObject>z</foreignObject></svg>", b"<P>a</p><sEcTiOn>b</sEcTiOn>", b"<A HREF=x>l</A>"]));
+    }
     let cuts = spec.resolve(input.len());
     Script { sels, docs, encoding, strict, esi, prealloc, max_mem, graceful_mem, input, cuts, free_builder_early, free_selectors_early, free_strings_late, poll_errors, defer_errors, skip_end }
 }
